@@ -8,7 +8,7 @@ from vlib.machine import Machine, history, snap, snap_diff, is_inplace, MAX_LEN
 from ansi_string import AnsiString, AnsiStr
 from ansi_string.ansi_format import AnsiSetting
 
-QUICK_SCALE = 1.5
+QUICK_SCALE = 1.0
 RULE = ('histories: 2-3 initial values (AnsiString and AnsiStr) followed by 3-12 (quick) / up to 30 (thorough) public operations; '
         'every operation in in-place and non-in-place form; binary operations between any two live values including a value with '
         'itself; replace with a live value as replacement; results join the live set, so results and sources are mutated later. '
@@ -33,7 +33,7 @@ def freeze_settings(x):
 def eval_history(case):
     o = Outcome()
     try:
-        m = Machine(case)
+        m = Machine(case, max_len=700)
     except BuilderInvalid:
         o.skipped = 'builder_invalid'
         return o
@@ -209,7 +209,7 @@ def strat_twin():
 
 
 def strat(maxs):
-    return lambda: history(CFG, 3, maxs)
+    return lambda: history(CFG, 3, maxs, huge=True)
 
 
 SUBS = [
